@@ -6,6 +6,7 @@ import (
 	"fmt"
 	"os"
 
+	"github.com/openfga/openfga/internal/verifh/c23seq"
 	"github.com/openfga/openfga/internal/verifh/core"
 	"github.com/openfga/openfga/internal/verifh/e1"
 	"github.com/openfga/openfga/internal/verifh/iterx"
@@ -17,6 +18,9 @@ func main() {
 		"(a) every tuple-iterator adapter x every pair of input sequences of length<=3 over an ordered 3-symbol alphabet with an error injected at every position x every call script over {Next,Head,Stop} up to the bound, against list-based specifications; (b) every interleaving within the preemption bound (scheduling points at every sync/atomic operation and modelled timer of the instrumented sharediterator package) of 2-3 consumers of one shared iterator running Next/Head/Stop scripts over a 0-20 item stub (optionally failing at position k): each consumer observes a prefix-closed view of the complete sequence, no deadlock/livelock/panic, every underlying iterator that was opened is stopped once all consumers and timers are done; non-trivial = distinct observed outcomes")
 	r.Assume("vrt scheduler models (mutex, RWMutex, WaitGroup, Once, sync.Map, atomics) and vtime timers (an AfterFunc timer may fire at any scheduling point)", "fair scheduling rule for spin loops (await.Do hand-off)")
 	if o.Replay != "" {
+		if c23seq.Replay(o, r) {
+			os.Exit(r.Finish())
+		}
 		var v e1.Viol
 		if err := core.LoadReplay(o.Replay, &v); err != nil {
 			fmt.Println("replay:", err)
